@@ -2,12 +2,42 @@
 import drivers.c01  # noqa: F401   (registers the drivers)
 
 PROP = "C01"
-LEVEL = "exploration"
-LEVEL_TEXT = "..."
-LEVEL_NOTE = "..."
+LEVEL = "exploration"          # until the E1 (SMT) part is added by the main session; do not claim more
+LEVEL_TEXT = ("Bounded run-time contracts: every public route that evaluates a tensor network (full / partial / tag-wise / "
+              "cumulative / structured contraction, operators ^ >> @, to_dense, norm, overlap, trace, item, and the "
+              "TNLinearOperator views) is executed on thousands of small random (hyper-)graph and 1D networks and compared "
+              "with a numpy.einsum denotation times 10**exponent. Nothing is proved; the evidence is the absence of "
+              "counterexamples on the stated domain apart from the listed known findings.")
+LEVEL_NOTE = ("Trusted: numpy.einsum (sublist form, no optimisation) and numpy dense algebra as reference; reading "
+              "t.data / t.inds / tn.exponent of a result network; scale-aware tolerances (1e-9 double, 3e-4 single, "
+              "relative to the sum of the moduli of the summed terms). Domain: <= 6 tensors, rank <= 4, dims <= 3.")
 TECHNIQUE = "run-time contracts on the real functions vs independent numpy references over a stated bounded domain (bounded stand-in)"
-E1 = []
+E1 = []                        # filled later by the main session
 PROVIDERS = []
-TRUSTED = ["numpy.einsum reference computations"]
-ASSUMPTIONS = []
-EXPLANATION = "..."
+TRUSTED = [
+    "numpy.einsum (sublist form) on the raw arrays and labels is the denotation of a network; numpy dense linear algebra",
+    "quimb is only used to read .data / .inds / .exponent / .tensor_map of a *result* network and to construct inputs "
+    "(Tensor, TensorNetwork, MatrixProductState / MatrixProductOperator constructors, attribute assignment of exponent)",
+]
+ASSUMPTIONS = [
+    "domain: random hypergraph networks with 1-6 tensors of rank 0-4, label dimensions in {1,2,3}, label multiplicity 1-4 "
+    "(optionally a label repeated on one tensor), total label space <= 20000; 1D chains of 1-6 sites, bond dims 1-3",
+    "dtypes float32/float64/complex64/complex128 (uniform per network); stored exponent in {0, +-1.5, 30, -7.25} for "
+    "double and {0, +-1.5, 3} for single precision (single precision overflows with exponents ~30)",
+    "tolerance: |got - ref| <= rtol * (sum of |terms|) with rtol 1e-9 (double) / 3e-4 (single), x4 for operator / norm / "
+    "overlap routes, x10 for the 1D expectation values; random normal data, no special conditioning needed",
+    "requests only use tags present in the network; explicit paths are random linear (opt_einsum style) paths, [(0,)] for "
+    "a single tensor; output-label inference (no output_inds) is only requested where it is documented to be defined "
+    "(no label of multiplicity > 2, outputs = labels occurring once); the order of *inferred* outputs is not constrained",
+    "Tensor.__matmul__ is documented for two tensors: tensor @ network is not exercised",
+    "each chunk runs in a daemonic worker process: cotengra is told not to create nested process pools for its "
+    "hyper-optimizer (cotengra.parallel._IS_WORKER = True); path search itself is unchanged",
+]
+EXPLANATION = (
+    "E3 (bounded): five drivers. full-contraction-routes: contract(all|...|tags), contract_tags, contract_cumulative, "
+    "tensor_contract, ^, ^=, >>, >>=, item with output_inds / optimize / strip_exponent / preserve_tensor / inplace / "
+    "equalize_norms varied. partial-contraction: contract / contract_tags (which any/all/!any/!all) / cumulative / "
+    "contract_between / contract_ind / operators on a proper subset, result network re-evaluated by einsum. "
+    "dense-norm-overlap-trace-matmul: to_dense groupings, norm, overlap, trace, @. linear-operator: TNLinearOperator "
+    "matvec / matmat / rmatvec / .H / .T / conj / astype / to_dense / trace. structured-1d: MPS / MPO / <bra|ket> / "
+    "<bra|op|ket> through contract(...), slices and contract_structured.")
